@@ -210,7 +210,8 @@ class Prop(BaseProp):
                                                            "unterminated-bracket-comment"):
                     res.count("mutants_legacy_skipped")
                     continue
-                reason = mref.invalid[0]
+                reasons = [x for x, _ in mref.all_invalid if x != "text-after-command-on-same-line"]
+                reason = reasons[0] if reasons else mref.invalid[0]
                 if reason == "text-after-command-on-same-line":
                     # invalid for CMake (a newline must follow every command) but not one of the fault classes C06 lists;
                     # typically produced by a pair of parenthesis faults splitting one command into two on one line
